@@ -52,9 +52,37 @@ fn raw_of(v: &ReplicatedValue) -> Value {
     }
 }
 
+/// What the value does next: the same operation applied to the original and to the decoded copy must give
+/// the same result (state that a Serialize impl skips or rebuilds shows up here, e.g. ORSet tag counters).
+fn probe_of(v: &ReplicatedValue) -> Value {
+    let mut c = v.clone();
+    match c.crdt_mut() {
+        CrdtValue::ORSet(o) => {
+            let mut out = Vec::new();
+            for r in 1..=3u64 {
+                o.add("zz-probe".to_string(), ReplicaId::new(r));
+                let mut tags: Vec<(u64, u64)> = o.get_tags(&"zz-probe".to_string()).map(|t| t.iter().map(|u| (u.replica_id.0, u.sequence)).collect()).unwrap_or_default();
+                tags.sort();
+                out.push(json!(tags));
+            }
+            json!({"orset_next_tags": out})
+        }
+        CrdtValue::GCounter(g) => {
+            g.increment_by(ReplicaId::new(1), 1);
+            json!({"gcounter_after_inc": jv(g)})
+        }
+        CrdtValue::PNCounter(p) => {
+            p.increment_by(ReplicaId::new(1), 1);
+            p.decrement_by(ReplicaId::new(2), 1);
+            json!({"pncounter_after_ops": jv(p)})
+        }
+        _ => json!(null),
+    }
+}
+
 /// Structural image of a delta: every field through serde plus the raw payload bytes.
 fn dv(d: &ReplicationDelta) -> Value {
-    json!({"serde": jv(d), "raw": raw_of(&d.value), "key": d.key.as_bytes()})
+    json!({"serde": jv(d), "raw": raw_of(&d.value), "probe": probe_of(&d.value), "key": d.key.as_bytes()})
 }
 
 fn kind_of(v: &ReplicatedValue) -> &'static str {
@@ -155,13 +183,18 @@ fn payload_values(rng: &mut impl Rng, n: usize) -> Vec<(String, ReplicationDelta
     let mut out = Vec::new();
     let all256: Vec<u8> = (0..=255u8).collect();
     let payloads: Vec<Vec<u8>> = vec![vec![], vec![0], vec![0xff], all256.clone(), vec![0xc3, 0x28], b"hello".to_vec(), vec![b'x'; 65536],
-                                      (0..70000).map(|i| (i * 7 % 256) as u8).collect()];
+                                      (0..70000).map(|i| (i * 7 % 256) as u8).collect(),
+                                      // around and above 1 MiB (an encoded update has no documented size limit)
+                                      vec![b'y'; (1 << 20) - 64], vec![b'z'; (1 << 20) + 1], (0..(3usize << 20)).map(|i| (i % 251) as u8).collect()];
     let keys = ["", "k", "a key with spaces", "k\u{e9}\u{4e2d}\u{1f600}", "\u{0}nul", "\r\n"];
     let long_key: String = "K".repeat(5000);
     let stamps: [(u64, u64); 5] = [(0, 0), (1, 1), (u64::MAX, u64::MAX), (1 << 40, 65535), (7, 3)];
     let expiries: [Option<u64>; 4] = [None, Some(0), Some(1234567890123), Some(u64::MAX)];
     for p in &payloads {
         for (i, key) in keys.iter().chain(std::iter::once(&long_key.as_str())).enumerate() {
+            if p.len() > 100_000 && i > 0 {
+                continue; // the large payloads once
+            }
             let (t, r) = stamps[i % stamps.len()];
             let mut v = lww(p.clone(), t, r);
             v.expiry_ms = expiries[(i + p.len()) % expiries.len()];
